@@ -1,12 +1,17 @@
+open BinInt
 open BinNums
 open Datatypes
 open List
 
 type tytag = coq_N
 
+type unop =
+| UNegative
+| UBitwiseComplement
+
 type expr =
 | EBinary of expr * expr
-| EUnary of expr
+| EUnary of unop * expr
 | EBool
 | ESigned of coq_Z * tytag option * coq_N
 | EBit of coq_Z * tytag option * coq_N
@@ -60,8 +65,13 @@ type decl =
 | DImport
 | DPoison
 
+type litkind =
+| KSigned
+| KBit
+| KNegBit
+
 type lintev =
-| EvLiteral of coq_N * bool * coq_Z * tytag option
+| EvLiteral of coq_N * litkind * coq_Z * tytag option
 | EvLoopFirst of coq_N * coq_N * coq_N
 
 type lstate = { st_naked : coq_N option; st_first : (coq_N * coq_N) option }
@@ -90,7 +100,7 @@ val lint_decl_in : decl -> lstate -> lstate * lintev list
 
 val lint_decl : decl -> lintev list
 
-type litocc = { oc_pos : coq_N; oc_signed : bool; oc_val : coq_Z;
+type litocc = { oc_pos : coq_N; oc_kind : litkind; oc_val : coq_Z;
                 oc_ty : tytag option }
 
 val occ_key : litocc -> coq_N * tytag option
@@ -108,6 +118,10 @@ val typed_literals : (coq_N * tytag option) list -> (coq_N * tytag) list
 val lint_checked : decl -> (coq_N * tytag) list
 
 val lint_positions : decl -> coq_N list
+
+val range_test :
+  (tytag -> ((bool * coq_Z) * coq_Z) option) -> litkind -> coq_Z -> tytag ->
+  bool
 
 val lint_decls_in : decl list -> lstate -> lstate * lintev list
 
